@@ -27,7 +27,7 @@ struct Ctx {
   volatile int* occ;                 // critical-section occupancy (arena memory: accesses are yield points)
   std::vector<lin::Op> hist; uint64_t seq;
   int pendingIdx[65];                // per sim task: index of its pending op, -1
-  struct Thr { Thread* th; int64_t ret; uint64_t endSeq; bool ended; bool started; } thr[8];
+  struct Thr { Thread* th; int64_t ret; uint64_t endSeq; bool ended; bool started; uint memberProc(); } thr[8];
   int workerTask[8];
 };
 static Ctx C;
@@ -53,6 +53,7 @@ static uint threadProc(void* p) {
   return (uint)t->ret;
 }
 
+uint Ctx::Thr::memberProc() { return threadProc(this); }
 static void worker(void* a) {
   int w = ((WArg*)a)->w;
   int depth = 0;
@@ -91,9 +92,9 @@ static void worker(void* a) {
     case MO_SET: if (C.prim == P_MONITOR) { int k = beginOp(w, MO_SET, 0); C.mo->set(); endOp(k, 1); } break;
     case MO_WAIT: if (C.prim == P_MONITOR) { Monitor::Guard g(*C.mo); int k = beginOp(w, MO_WAIT, 0); bool ok = g.wait(); endOp(k, ok); } break;
     case MO_WAITT: if (C.prim == P_MONITOR) { Monitor::Guard g(*C.mo); int k = beginOp(w, MO_WAITT, t); bool ok = g.wait(t); endOp(k, ok); } break;
-    case TH_START: if (C.prim == P_THREAD) { Ctx::Thr& th = C.thr[w]; if (!th.started) { th.th = new Thread; th.ret = 1000 + op.a[0] % 1000; th.ended = false; th.started = true; uint64_t f0 = threadCreateFailureCount(); auto faultedThreadCreate = [&]() { return threadCreateFailureCount() != f0; }; int k = beginOp(w, TH_START, th.ret); bool ok = th.th->start(threadProc, &th); endOp(k, ok);
+    case TH_START: if (C.prim == P_THREAD) { Ctx::Thr& th = C.thr[w]; if (!th.started) { th.th = new Thread; th.ret = 1000 + op.a[0] % 1000; th.ended = false; th.started = true; uint64_t f0 = threadCreateFailureCount(); auto faultedThreadCreate = [&]() { return threadCreateFailureCount() != f0; }; int k = beginOp(w, TH_START, th.ret); bool ok = (op.a[0] % 2) ? th.th->start(th, &Ctx::Thr::memberProc) /* member-function form */ : th.th->start(threadProc, &th); endOp(k, ok);
       /* creation may fail for lack of resources (injected): the caller tries again, and a Thread object that was never started must still be startable */
-      for (int tries = 0; !ok; ++tries) { if (!faultedThreadCreate() || tries >= 50) fail("C11/thread/start_failed", tries ? "Thread::start keeps returning false after a failed creation although threads can be created again" : "Thread::start returned false"); probe("thread_start_retried"); int k2 = beginOp(w, TH_START, th.ret); ok = th.th->start(threadProc, &th); endOp(k2, ok); } } } break;
+      for (int tries = 0; !ok; ++tries) { if (!faultedThreadCreate() || tries >= 50) fail("C11/thread/start_failed", tries ? "Thread::start keeps returning false after a failed creation although threads can be created again" : "Thread::start returned false"); probe("thread_start_retried"); int k2 = beginOp(w, TH_START, th.ret); ok = (op.a[0] % 2) ? th.th->start(th, &Ctx::Thr::memberProc) : th.th->start(threadProc, &th); endOp(k2, ok); } } } break;
     case TH_JOIN: if (C.prim == P_THREAD) { Ctx::Thr& th = C.thr[w]; if (th.started) { int k = beginOp(w, TH_JOIN, th.ret); uint r = th.th->join(); endOp(k, (int)r); if (!th.ended) fail("C11/thread/join_before_end", "join returned before the thread function finished"); delete th.th; th.th = 0; th.started = false; } } break;
     }
   }
